@@ -321,6 +321,15 @@ theorem call_src (st st' : NState) (rnd : Option Nat) (op : NodeOp) (res : OpRes
   | setMaxCommittedSizePerReady x =>
     simp only [applyOp] at h
     cases h; exact Src.of_eq rfl
+  | onEntriesFetched to term aggr =>
+    rcases onEntriesFetched_ok h with h | ⟨-, -, -, raft, hx, h⟩
+    · cases h; exact Src.of_eq rfl
+    · cases h
+      have h0 : CP (fun x => x = st.raft.raftLog.committed) ({ st.raft with nextRand := rnd } : Raft) :=
+        ⟨rfl⟩
+      rcases hx with hx | hx
+      · exact ofEq (sendAppendAggressively_cp hx h0).h rfl
+      · exact ofEq (sendAppend_cp hx h0).h rfl
 
 end CC
 end Raft
